@@ -120,7 +120,14 @@ impl Report {
       }
     }
     for m in r.machinery_errors {
-      self.machinery.push(format!("{}: {}", name, m));
+      if m.contains("did not reproduce in isolation") {
+        // a worker death that depends on what earlier cases of the same worker did: alone it is
+        // a machinery error (nothing can be attributed); next to reported violations it is one
+        // more symptom and must not replace the verdict
+        self.soft.push(format!("{}: {}", name, m));
+      } else {
+        self.machinery.push(format!("{}: {}", name, m));
+      }
     }
     r.counters
   }
